@@ -221,6 +221,13 @@ def resolve (labels : List (Nat × Nat)) : Stmt → Except PErr Stmt
   | .gotoValN l => match lookupLabel labels l with
     | none => .error .undeclaredLabel
     | some u => .ok (.gotoVal l u)
+  -- (the parser never produces the next two forms; resolving them again keeps `resolve` idempotent)
+  | .goto_ (.user l) _ => match lookupLabel labels l with
+    | none => .error .undeclaredLabel
+    | some u => .ok (.goto_ (.user l) u)
+  | .gotoVal l _ => match lookupLabel labels l with
+    | none => .error .undeclaredLabel
+    | some u => .ok (.gotoVal l u)
   | s => .ok s
 
 /-- `function()` for `void f(void) { body }`: `__func__` and `__FUNCTION__` take two unique
